@@ -1555,9 +1555,10 @@ class DynamicBase(BaseSpaceImpl):
 
     def on_namespace_change(self):
         ItemSpaceParent.on_namespace_change(self)
-        # Use dict instead of list to avoid duplicates
-        for r in {s.rootspace: True for s in self._dynamic_subs}:
-            r.del_all_itemspaces()
+        # ItemSpaces built from this space (as their base, or as a child of
+        # their base) hold copies of its members: discard them, not only
+        # the ItemSpaces nested in them.
+        self.clear_subs_rootitems()
 
     def change_dynsub_refs(self, name):
 
